@@ -158,6 +158,35 @@ fn search(algebra: bool, cycle: bool) {
             bad.push(format!("importing a library in a two-library cycle twice gives {:?} (in-progress set afterwards: {} entries)", kinds, it.imported_library.len()));
         }
     }
+    // shared dependencies reached by several paths are NOT cycles: a diamond, a dependency imported by a library and by its importer,
+    // a three-library chain; and genuine cycles of length 1 and 3 are
+    let _ = std::fs::create_dir_all(dir.join("dia"));
+    let lib = |name: &str, imports: &str, var: &str| format!("(define-library (dia {}) (import (ruschm base) {}) (export {}) (begin (define {} 1)))", name, imports, var, var);
+    let _ = std::fs::write(dir.join("dia").join("shared.sld"), lib("shared", "", "s"));
+    let _ = std::fs::write(dir.join("dia").join("left.sld"), lib("left", "(dia shared)", "l"));
+    let _ = std::fs::write(dir.join("dia").join("right.sld"), lib("right", "(dia shared)", "r"));
+    let _ = std::fs::write(dir.join("dia").join("top.sld"), lib("top", "(dia left) (dia right)", "t"));
+    let _ = std::fs::write(dir.join("dia").join("both.sld"), lib("both", "(dia left) (dia shared)", "b"));
+    let _ = std::fs::write(dir.join("dia").join("chain.sld"), lib("chain", "(dia top)", "c"));
+    let _ = std::fs::write(dir.join("dia").join("self.sld"), lib("self", "(dia self)", "x"));
+    let _ = std::fs::write(dir.join("dia").join("c1.sld"), lib("c1", "(dia c2)", "x"));
+    let _ = std::fs::write(dir.join("dia").join("c2.sld"), lib("c2", "(dia c3)", "y"));
+    let _ = std::fs::write(dir.join("dia").join("c3.sld"), lib("c3", "(dia c1)", "z"));
+    if cycle {
+        for (name, want) in [("top", "Ok"), ("both", "Ok"), ("chain", "Ok"), ("self", "LibraryImportCyclic"), ("c1", "LibraryImportCyclic")].iter() {
+            let mut it = Interpreter::<f32>::default();
+            it.program_directory = Some(dir.clone());
+            let set = ImportSetBody::Direct(library_name!["dia", *name].into()).no_locate();
+            let mut kinds = Vec::new();
+            for _ in 0..2 {
+                n += 1;
+                kinds.push(match it.eval_import_set(&set) { Ok(_) => "Ok".to_string(), Err(e) => kind(&e) });
+            }
+            if (kinds.iter().any(|k| k != want) || !it.imported_library.is_empty()) && bad.len() < 4 {
+                bad.push(format!("importing (dia {}) twice gives {:?}, expected {} both times (in-progress set afterwards: {} entries)", name, kinds, want, it.imported_library.len()));
+            }
+        }
+    }
     let _ = std::fs::remove_dir_all(&dir);
     if bad.is_empty() {
         println!("VERIF-NATIVE: ok {} imports: {} as specified", n, if algebra { "the import-set algebra behaves" } else { "repeated failing imports and a cyclic import behave" });
